@@ -8,3 +8,6 @@ open LhasaV.Props.C06
 #print axioms glob_literal
 #print axioms glob_trailing_stars
 #print axioms flatten_single_component
+#print axioms macbinary_strip
+#print axioms macbinary_keep
+#print axioms mac_header_spec
